@@ -8,6 +8,7 @@ import (
 	"net/url"
 	"path"
 	"strings"
+	"sync"
 
 	"verif/simfw"
 )
@@ -41,6 +42,7 @@ type Storage struct {
 	Count  map[string]int
 	Budget int // reads after which the load is declared non-terminating
 	Fired  map[string]int
+	mu     sync.Mutex
 }
 
 type BudgetExceeded struct{ Reads int }
@@ -88,6 +90,8 @@ func (s *Storage) faultFor(loc string) *ReadFault {
 
 // read is the single point every simulated read goes through.
 func (s *Storage) read(loc, via string) (data []byte, err error, fault string) {
+	s.mu.Lock() // (a loader may fetch in parallel)
+	defer s.mu.Unlock()
 	s.Count[loc]++
 	total := 0
 	for _, c := range s.Count {
@@ -183,6 +187,8 @@ func (s *Storage) ReadFile(name string) ([]byte, error, bool) {
 func (s *Storage) RoundTrip(req *http.Request) (*http.Response, error) {
 	loc := Canon(req.URL)
 	if _, known := s.hosts()[req.URL.Host]; !known {
+		s.mu.Lock()
+		defer s.mu.Unlock()
 		s.Count[loc]++
 		ev := ReadEvent{Loc: loc, Via: "http", OK: false}
 		if s.Log != nil {
